@@ -73,6 +73,9 @@ type progGen struct {
 	k51    bool // exclusion K51-meet-underapproximates active
 	// the unions of leaf types drawn so far as column types: later ones are derived from them
 	leafUnions []Ty
+	// the case's (wider, narrower) pair of element types for fn:list:append / fn:list:cons (see related_test.go)
+	subW, subN Ty
+	hasSub     bool
 }
 
 func (g *progGen) label(l string) { g.labels[l] = true }
@@ -90,12 +93,18 @@ func (g *progGen) colTy() Ty {
 	if len(g.leafUnions) > 0 {
 		share = 50 // such unions come in groups: one alone meets nothing
 	}
+	subShare := 12
+	if g.hasSub {
+		subShare = 55 // the list and the other argument come as columns of one case
+	}
 	if chance(g.t, "leaf-union-column", share) {
 		// a union of two or three leaf types that shares alternatives with the other such unions of the case
 		u := genLeafUnion(g.t, g.leafUnions)
 		g.leafUnions = append(g.leafUnions, u)
 		ty = reflavour(g.t, u)
 		g.label("ty:leaf-union")
+	} else if chance(g.t, "subtype-list-column", subShare) {
+		ty = g.subColTy()
 	} else if g.s.taggedCase && (!g.s.fixLabels || g.s.fixTagged || hasLabel(g.s.labels, tagField)) && chance(g.t, "tagged-column", 12) {
 		ty = g.s.genTagged(g.t)
 	} else {
@@ -275,6 +284,9 @@ func genProgram(t *rapid.T) (prog.Generated, []string) {
 	if chance(t, "chain", 5) {
 		g.genChain(fmt.Sprintf("e%d", ne), level)
 		level += 2
+	}
+	if chance(t, "mixed-literal", 9) {
+		level += g.genMixed(fmt.Sprintf("e%d", ne+1), fmt.Sprintf("e%d", ne+2), level)
 	}
 	for i := 0; i < ni; i++ {
 		g.genIDB(level + i)
@@ -608,6 +620,10 @@ type ruleGen struct {
 	nvar  int
 	// equated: the variables of the steps X = Y (their types were refined last; the head prefers them)
 	equated []string
+	// featured: variables that hold the value of a construction the head should prefer
+	featured []string
+	// last: what the last call of construct says about its value (see constructInfo)
+	last constructInfo
 }
 
 func (r *ruleGen) fresh(ty Ty) string {
@@ -960,6 +976,32 @@ func (r *ruleGen) available(strictlyLower bool) []pinfo {
 	return res
 }
 
+// subPreds: the predicates with a column typed by the case's (wider, narrower) pair or a list of them, of
+// a kind (list / other argument) the body has not bound yet.
+func (r *ruleGen) subPreds(preds []pinfo) []pinfo {
+	g := r.g
+	haveList, haveElem := false, false
+	isList := func(ty Ty) bool { return ty.key() == tyList(g.subW).key() || ty.key() == tyList(g.subN).key() }
+	isElem := func(ty Ty) bool { return ty.key() == g.subW.key() || ty.key() == g.subN.key() }
+	for _, v := range r.env {
+		haveList = haveList || isList(v.ty)
+		haveElem = haveElem || isElem(v.ty)
+	}
+	var res []pinfo
+	for _, p := range preds {
+		if p.noJoin {
+			continue
+		}
+		for _, c := range p.cols {
+			if isList(c) && !haveList || isElem(c) && !haveElem {
+				res = append(res, p)
+				break
+			}
+		}
+	}
+	return res
+}
+
 // def emits "V = expr" (in the body or as a let-transform) and binds V.
 func (r *ruleGen) def(expr prog.Term, ty Ty, asLet bool) {
 	if asLet {
@@ -969,10 +1011,26 @@ func (r *ruleGen) def(expr prog.Term, ty Ty, asLet bool) {
 		opaque := expr.Fn == "fn:struct" || expr.Fn == "fn:map" || expr.Fn == "fn:list" && len(expr.Args) != 1
 		r.env = append(r.env, tvar{name: name, ty: ty, opaque: opaque})
 		r.g.label("let-transform")
+		r.applyLast(name)
 		return
 	}
 	v := r.fresh(ty)
 	r.body = append(r.body, prog.EqLit(prog.Var(v), expr))
+	r.applyLast(v)
+}
+
+// applyLast marks the variable that holds the value of the last construction.
+func (r *ruleGen) applyLast(name string) {
+	if r.last.lock {
+		r.lock(name)
+	}
+	if r.last.narrowed {
+		r.markNarrowed(name)
+	}
+	if r.last.feature {
+		r.featured = append(r.featured, name)
+	}
+	r.last = constructInfo{}
 }
 
 func constTy(v val.V) Ty {
@@ -1036,6 +1094,12 @@ func (r *ruleGen) construct() (prog.Term, Ty, bool) {
 	}
 	var cands []cand
 	add := func(name string, mk func() (prog.Term, Ty, bool)) { cands = append(cands, cand{name, mk}) }
+	r.last = constructInfo{}
+	if sub := r.subtypePairs(); len(sub) > 0 {
+		for i := 0; i < 3; i++ {
+			add("list-fn-subtype-args", func() (prog.Term, Ty, bool) { return r.subtypeListFn(sub) })
+		}
+	}
 	add("fn:pair", func() (prog.Term, Ty, bool) {
 		a, ta := r.operand()
 		b, tb := r.operand()
@@ -1128,6 +1192,12 @@ func (r *ruleGen) construct() (prog.Term, Ty, bool) {
 	}
 	for _, v := range r.live() {
 		v := v
+		if g.k51 && (v.ty.K == "name" || v.ty.K == "prefix") && !nameStates(v) {
+			// (K51) a flowing type that was narrowed to a name type, or a variable that has a union in some
+			// inference state: fn:name:* cannot be typed there and the checker drops that state
+			g.touch()
+			continue
+		}
 		if v.ty.K == "name" || v.ty.K == "prefix" || v.ty.K == "singleton" && !g.k51 && chance(t, "name-fn-on-singleton", 10) {
 			add("fn:name", func() (prog.Term, Ty, bool) {
 				fn := pick(t, "namefn", "fn:name:root", "fn:name:tip", "fn:name:to_string")
@@ -1218,6 +1288,20 @@ func (r *ruleGen) construct() (prog.Term, Ty, bool) {
 		g.label("construct:" + c.name)
 	}
 	return term, ty, ok
+}
+
+// nameStates: every type the variable can have in one inference state is /name or a name-prefix type, and
+// its flowing type was not narrowed on purpose.
+func nameStates(v tvar) bool {
+	if v.narrowed {
+		return false
+	}
+	for _, c := range cands(v) {
+		if c.K != "name" && c.K != "prefix" {
+			return false
+		}
+	}
+	return true
 }
 
 // keyTerm: a constant member of the key type, or a bound variable of that type.
@@ -1694,8 +1778,12 @@ func (r *ruleGen) gen(name string, arity int) (prog.Rule, []Ty) {
 	if len(g.leafUnions) >= 2 && natoms == 1 && rapid.Bool().Draw(t, "second-atom") {
 		natoms = 2 // two columns typed by overlapping unions: something to equate
 	}
+	if g.hasSub && natoms == 1 && rapid.Bool().Draw(t, "second-atom-subtype") {
+		natoms = 2 // a list and a second argument of a comparable type
+	}
 	for i := 0; i < natoms; i++ {
 		p := preds[g.intn("pred", len(preds))]
+		overlapping := false
 		if i > 0 && rapid.IntRange(0, 9).Draw(t, "overlapping-pred") < 7 {
 			// prefer a predicate with a column whose union type overlaps the type of a bound variable
 			// without being comparable to it: something for the step X = Y
@@ -1707,6 +1795,13 @@ func (r *ruleGen) gen(name string, arity int) (prog.Rule, []Ty) {
 			}
 			if len(over) > 0 {
 				p = over[g.intn("overpred", len(over))]
+				overlapping = true
+			}
+		}
+		if g.hasSub && !overlapping && (i > 0 || len(g.leafUnions) < 2) && rapid.Bool().Draw(t, "subtype-pair-pred") {
+			// prefer a predicate with a column of the case's (wider, narrower) pair that is not bound yet
+			if sub := r.subPreds(preds); len(sub) > 0 {
+				p = sub[g.intn("subpred", len(sub))]
 			}
 		}
 		if r.self != nil && i == 0 {
@@ -1729,6 +1824,15 @@ func (r *ruleGen) gen(name string, arity int) (prog.Rule, []Ty) {
 			nsteps--
 		}
 	}
+	// a list and a value of a comparable but different element type: mostly combined first
+	if r.self == nil {
+		if sub := r.subtypePairs(); len(sub) > 0 && rapid.IntRange(0, 9).Draw(t, "subtype-listfn-first") < 7 {
+			if term, ty, ok := r.subtypeListFn(sub); ok {
+				r.def(term, ty, chance(t, "as-let", 15))
+				g.label("construct:list-fn-subtype-args")
+			}
+		}
+	}
 	for i := 0; i < nsteps; i++ {
 		r.step()
 	}
@@ -1749,7 +1853,14 @@ func (r *ruleGen) gen(name string, arity int) (prog.Rule, []Ty) {
 			if b := g.intn("hv2", len(r.env)); b > a {
 				a = b
 			}
-			if len(r.equated) > 0 && rapid.Bool().Draw(t, "project-equated") {
+			if len(r.featured) > 0 && rapid.IntRange(0, 3).Draw(t, "project-featured") > 0 {
+				name := r.featured[g.intn("featured", len(r.featured))]
+				for i := range r.env {
+					if r.env[i].name == name {
+						a = i
+					}
+				}
+			} else if len(r.equated) > 0 && rapid.Bool().Draw(t, "project-equated") {
 				name := r.equated[g.intn("equated", len(r.equated))]
 				for i := range r.env {
 					if r.env[i].name == name {
@@ -1770,6 +1881,7 @@ func (r *ruleGen) gen(name string, arity int) (prog.Rule, []Ty) {
 			g.label("head-const")
 		default:
 			if term, ty, ok := r.construct(); ok {
+				r.last = constructInfo{}
 				head.Args = append(head.Args, term)
 				types = append(types, ty)
 				g.label("head-expression")
